@@ -286,6 +286,16 @@ def fixed_pairs(ctx, home):
         ("enum-value-off-by-2-pow-64", local(enum % ("  base: uint64\n", 5, 1), enum % ("  base: uint64\n", 5, 18446744073709551615)), "reject"),
         ("enum-value-to-negative-zero-distance", local(enum % ("", 3, 9), enum % ("", -3, -9)), "reject"),
     ]
+    # a record of the package and a record of the imported package with the same simple name, both below changed steps; the package's own record holds
+    # an enum that lost a value (breaking) - in both step orders
+    hdr_lib = "Header: !record\n  fields:\n    serial: string\n    gain: float\n"
+    hdr_app = "Mode: !enum\n  values: [idle, armed%s]\nHeader: !record\n  fields:\n    subject: string\n    mode: Mode\nSession: !protocol\n  sequence:\n%s"
+    for nm, steps in (("lib-first", ("    device: Lib.Header%s\n", "    header: Header\n")), ("own-first", ("    header: Header\n", "    device: Lib.Header%s\n"))):
+        mk = lambda extra, q: hdr_app % (extra, "".join(x % q if "%s" in x else x for x in steps))
+        shared = {"old/_package.yml": "namespace: App\nimports:\n  - ../lib\n", "lib/_package.yml": "namespace: Lib\n", "lib/l.yml": hdr_lib,
+                  "new/_package.yml": "namespace: App\nimports:\n  - ../lib\nversions:\n  v0: ../old\n"}
+        cases.append(("same-simple-name-enum-value-removed-" + nm, dict(shared, **{"old/a.yml": mk(", calibrating", ""), "new/a.yml": mk("", "?")}), "reject"))
+        cases.append(("same-simple-name-only-compatible-" + nm, dict(shared, **{"old/a.yml": mk("", ""), "new/a.yml": mk("", "?")}), "accept"))
     for name, files, expect in cases:
         cdir = os.path.join(ctx.workdir, "cases", "fixed_" + name)
         shutil.rmtree(cdir, ignore_errors=True)
